@@ -197,14 +197,10 @@ impl ValidatorSync for KeepSortedValidator {
                                         )
                                     })?;
                                 if cmp == violating_ord {
-                                    let violation_line_number = block_with_context
-                                        .block
-                                        .start_tag_position_range
-                                        .start()
-                                        .line
-                                        + line_number;
-                                    let line_character_start = *curr_range.start();
-                                    let line_character_end = *curr_range.end();
+                                    let (violation_line_number, line_offset) =
+                                        block_with_context.block.content_line_position(line_number);
+                                    let line_character_start = line_offset + *curr_range.start();
+                                    let line_character_end = line_offset + *curr_range.end();
                                     violations
                                         .entry(file_path.clone())
                                         .or_insert_with(Vec::new)
